@@ -315,6 +315,8 @@ def run(ctx: RuleContext, p: Program) -> None:
     from . import c12 as _c12
     ctx.try_rule(_c12.rule_bc_rt, p, _c12.grammar(p), 'BC-RT')
     ctx.try_rule(round4.rule_desc_state, p, 'DESC-STATE')
+    # the indentation that was computed is what the INDENT token holds: Indent writes and reads its value verbatim
+    ctx.try_rule(_c12.rule_tok_rt, p, _c12.grammar(p), 'TOK-RT', ('Indent',))
     ctx.not_decided += ['concrete indentation strings', 'that inserted raw nodes print their own indent verbatim (C01/C02)']
     ctx.assumptions += ['MetaItem.from_value(indent=...) and BlockComment.from_value(indent=...) use the given indent (IND-CLASS '
                         'checks the generated from_value of MetaItem itself)']
